@@ -27,6 +27,9 @@ func fatRandomCases(prop string, seed int64, n, steps int, handles bool, avoid [
 		sizes := fatVolMatrix[t]
 		v := FatVol{Type: t, Size: sizes[(i/3)%len(sizes)], Start: fatStarts[(i/9+i)%len(fatStarts)], Sector: 512, Label: "VERIF"}
 		fc := fatCase{Vol: v, Steps: steps/2 + r.Intn(steps), Mode: "random", Handles: handles && i%2 == 0, Reopen: 7, Avoid: avoid, Used: i%4 == 1}
+		if i%3 == 2 {
+			fc.Resess = 13 // the history goes on in a new session on the re-opened image every 13 calls
+		}
 		cs = append(cs, core.MkCase(fmt.Sprintf("random-%s-%d", t, i), "history-"+t, r.Int63(), fc))
 	}
 	return cs
